@@ -48,3 +48,80 @@ claim('C13', 'Coq proof (call-discipline invariant of the frame stacks, unwindin
       'Not exhibited by the model: a thread/process-pool body that is already executing cannot be interrupted (the model treats its completion as a late gate completion, which theorem (2) covers). '
       'Not proved: the explicit numeric bound on the number of loop steps needed to drain the cancelled helpers (each takes exactly one step by (3) and is queued by (4); the count itself is checked on the implementation).',
       design='4 (C13)')
+E_NOTE = ('Kind-E theorems are about the catalogue programs only (coq/Catalogue/Programs.v: every DAG shape of the repository test suite re-expressed as a ProgSpec, '
+          'the witnesses of the repaired defects, nested / shared / failing variants; default order oracles): for each, a closed set of history-free states is computed and '
+          're-checked by vm_compute inside Coq (Explore/Explorer.v: closed_sound; Explore/Erase.v: the trace is write-only), so the statement holds for every schedule of '
+          'unbounded length, including cancellation by the caller at any point. For programs outside the catalogue the property is NOT proved: there it is decided by the '
+          'oracle evaluated on the real engine under random schedules against the extracted reference semantics, and by the model/implementation correspondence. '
+          'Known findings (DESIGN 3.6) delimit where the full statement is false.')
+claim('C01', 'Coq proof by certified exhaustive exploration (closed state set computed and re-checked in the kernel by vm_compute, per catalogue program, all schedules) against the reference dataflow semantics + extracted-model/implementation correspondence + oracle on the real engine',
+      'Theorems C01_catalogue, C01_value_is_schedule_independent, C01_verdict_is_schedule_independent, C01_with_cancellation (Properties/C01.v): for each of the 35 clean catalogue programs and EVERY schedule '
+      '(any order and timing of body / timer / callback / save completions, step-granular interleaving), the signal with which PipelineChart.run ends is what the independent reference semantics eval prescribes: the same value, '
+      'or an error result whose exception is a root cause of the reference failure, or a propagated BaseException root cause; two schedules can never disagree; with caller cancellation the only further outcome is CancelledError. '
+      'On every run 2400 (program, schedule) cases on the real engine are compared with the extracted model and with the extracted reference.',
+      E_NOTE, design='4 (C01)')
+claim('C02', 'Coq proof: certified exhaustive exploration per catalogue program (no deadlock, bounded chains of loop steps, all schedules) + all-program lemmas (ready-queue consistency, cancellation never hangs) + deadlock oracle on the real engine on a virtual loop + correspondence',
+      'Theorems C02_holds_on_certified_programs, C02_catalogue (Properties/C02.v): for each of the 37 catalogue programs (incl. raising event managers / artifact stores, None and falsy values, a label without a case, failures at depth in one-of candidates) '
+      'and EVERY schedule incl. caller cancellation, no reachable state is a deadlock (loop idle, nothing outstanding, run pending), the model interpreter never gives up, and at most 300 consecutive loop steps happen without an external completion. '
+      'C02_no_lost_wakeup_at_loop_level_partial holds for ALL programs: a Ready task is always queued. On every run the exact deadlock verdict of the virtual loop is evaluated on the real engine for 2400 generated (program, schedule) cases with collaborator faults.',
+      E_NOTE + ' Not exhibited: a body or collaborator call that never returns (outside the statement).', design='4 (C02)')
+claim('C03', 'Coq proof by certified exhaustive exploration per catalogue program (arguments held by the retry-loop frames = reference arguments, all schedules) + oracle on every body invocation of the real engine against the extracted reference + correspondence',
+      'Theorems C03_catalogue, C03_arguments_are_reference_arguments (Properties/C03.v): for each clean catalogue program and every schedule, the keyword arguments a body is / was / will again be invoked with (frames of the retry loop of every task) are '
+      'exactly arguments the reference semantics passes to that node: one keyword per declared parameter carrying the final value of the declared input, never a failure object, a Recurrent marker or a placeholder. '
+      'On every run every logged body invocation of the real engine (kwargs by value) is matched against the reference log.',
+      E_NOTE + ' Limitation of the frame formulation: a body that does not suspend (inline / immediate mode) never rests in a frame between loop steps; those invocations are covered by the implementation oracle and the trace correspondence only.', design='4 (C03)')
+claim('C04', 'Coq proof by certified exhaustive exploration per catalogue program (invocation counters bounded by the reference, all schedules) + oracle on invocation counts of the real engine + correspondence',
+      'Theorem C04_catalogue (Properties/C04.v): for each clean catalogue program and every schedule incl. cancellation, the number of body invocations of every node never exceeds the number of invocations of the reference evaluation '
+      '(one execution per run and (re-)iteration, plus retry attempts), however many consumers, switch branches, one-of candidates or scopes request it. On every run the invocation log of the real engine (with gated event managers, so that the duplicate-request window is exercised) is embedded into the reference log.',
+      E_NOTE, design='4 (C04)')
+claim('C05', 'Coq proof by certified exhaustive exploration per catalogue program (classification of the outcome against the reference, all schedules) + oracle on PipelineResult of the real engine + correspondence',
+      'Theorems C05_catalogue, C05_never_an_artefact (Properties/C05.v): for each clean catalogue program and every schedule incl. cancellation: a value only if the reference evaluates to it; PipelineResult(error=e) only with e an Exception that is a root cause of the reference failure '
+      '(a final failure raised by a required node of this run, or the documented one-of / recurrent / switch error), never a KeyError-like artefact or a helper CancelledError; run raises only a BaseException root cause or the caller\'s own CancelledError. '
+      'On every run the identity-tracked exceptions of generated bodies are checked on the real engine.',
+      E_NOTE, design='4 (C05)')
+claim('C09', 'Coq proof by certified exhaustive exploration per catalogue program (switch programs: counters, arguments, outcome, no deadlock; all schedules) + oracle on the real engine + correspondence',
+      'Theorems C09_catalogue, C09_non_selected_case_never_runs, C09_unknown_label_fails_the_run (Properties/C09.v): for the switch programs of the catalogue (plain, unknown label, selected case shared with another consumer, failing case, nested) and every schedule: '
+      'nodes needed only by non-selected cases are never executed, a shared selected case is executed once, the consumer receives the selected case value, a label without a case ends the run with SwitchCaseDoesNotHaveBranchError, never a hang.',
+      E_NOTE, design='4 (C09)')
+claim('C10', 'Coq proof by certified exhaustive exploration per catalogue program (one-of programs: laziness counters, arguments, containment, outcome; all schedules) + oracle on the real engine + correspondence',
+      'Theorems C10_catalogue, C10_later_candidate_never_runs, C10_failure_is_contained, C10_all_candidates_fail (Properties/C10.v): for the one-of programs of the catalogue (first / last wins, all fail, None value, failure at depth, a candidate with parallel dependencies, nested, shared between candidates) '
+      'and every schedule: later candidates and what only they need are never executed, failures of losing candidates do not fail the run nor reach a consumer as a value, all candidates failing gives OneOfDoesNotHaveResultError.',
+      E_NOTE, design='4 (C10)')
+claim('C11', 'Coq proof by certified exhaustive exploration per catalogue program (recurrent programs: re-execution counters, arguments, outcome; all schedules) + oracle on the real engine + correspondence',
+      'Theorems C11_catalogue, C11_bounded_reexecution, C11_exhaustion_fails_the_run (Properties/C11.v): for the recurrent programs of the catalogue (simple, exhausted with / without default, error inside, two consumers, retry inside, nested) and every schedule: '
+      'inner nodes are re-executed at most as often as the reference iterates (at most max_iterations), outside nodes at most once, consumers get the first non-Recurrent result or the default, exhaustion without default gives RecurrentSubgraphDoesNotHaveResultError.',
+      E_NOTE, design='4 (C11)')
+claim('C19', 'Coq proof by certified exhaustive exploration per catalogue program (save counters and saved values; all schedules) + oracle on the recording / write-once store of the real engine + correspondence',
+      'Theorems C19_catalogue, C19_saved_at_most_once (Properties/C19.v): for each clean catalogue program (with a gated write-once store on a rhombus, on a switch with a shared selected case and on a one-of with a failing candidate) and every schedule: no node id is saved twice, '
+      'nothing handed to the store is a Recurrent marker or a contained failure, a write-once store never makes the run fail. On every run the saves seen by a recording / write-once store on the real engine are compared with the values consumers received.',
+      E_NOTE + ' Known finding D15d (one save per iteration inside a recurrent subgraph) is tolerated on programs with a recurrent subgraph only.', design='4 (C19)')
+claim('C07', 'Coq proof (each run of a history is the single run of a fresh chart under its own schedule: projection theorem over the free interleaving of per-run machines, all programs; outcomes on the catalogue by certified exploration) + history correspondence with deep snapshots of the real chart',
+      'Theorems C07_each_run_is_a_fresh_run (all programs, all histories / interleavings) and C07_history_outcomes (catalogue programs: the k-th run yields what the reference gives) in Properties/C07.v. '
+      'In the model a chart is the immutable program and a run a fresh state, so "nothing is left behind" holds by construction; that the REAL engine writes nothing into the DAG, its graph attributes, the node map, the node classes '
+      'or the caller\'s input_kwargs is what the check examines on every run: histories of 2-4 runs of one chart with different inputs, failures and a cancelled run, deep snapshots around every run, every run compared with the single-run model '
+      'and with the reference on its own input (this is how D6, D7, D8, D18 were found and repaired).',
+      'The theorem is weak by design (the modelled engine has no shared mutable state); the assurance that the real engine has none comes from the correspondence part, which samples histories. Trusted: snapshot covers graph nodes/edges/attributes, graph attrs, node_map, class attributes name/attempts/delay/exceptions/use_default/tags/node_type, and the input dict.',
+      design='4 (C07)')
+claim('C08', 'Coq proof (projection and non-interference over the free interleaving of per-run machines, all programs and interleavings; solo outcomes on the catalogue by certified exploration) + correspondence with 2-3 overlapping chart.run tasks on one virtual loop',
+      'Theorems C08_projection, C08_non_interference (all programs, any number of runs, every interleaving: a run in a crowd is the single run under its induced schedule; what other runs do, including failing or being cancelled, cannot change it) and '
+      'C08_each_run_gets_its_solo_outcome (catalogue) in Properties/C08.v. On every run 2-3 overlapping runs of one chart with different inputs, one of them optionally cancelled, are executed on one virtual loop under random quiescent-batch schedules; '
+      'each run is compared with the single-run model under its induced schedule and with the reference on its own input; snapshots as for C07.',
+      'As for C07 the theorem rests on the model having no shared mutable state; the correspondence part samples interleavings (quiescent-batch only: a single loop step cannot be attributed to a run from outside). Not modelled: the process-wide pool registries and user code that mutates class attributes of shared node classes.',
+      design='4 (C08)')
+claim('C14', 'Coq proof: certified exhaustive exploration per catalogue program (event-callback counters: pipeline bracket, per-node bounds, helpers over at pipeline_complete; all schedules) + all-program lemmas (chart task holds only pipeline emissions; silence after the end of run, C13) + grammar oracle on the merged event/body trace of the real engine + correspondence',
+      'Theorems C14_catalogue (each clean catalogue program, every schedule incl. cancellation, managers gated or not: on_pipeline_start at most once per manager and before anything else; on_pipeline_complete at most once per manager and only when every helper task is finished or cancelled, '
+      'so that by C13 nothing can follow it; per node at most one on_node_start per execution and one on_node_complete per attempt of the reference; no event for a node the reference never runs) and C14_pipeline_events_come_from_the_chart_task (all programs, all schedules) in Properties/C14.v. '
+      'On every run recording event managers (gated in half of the cases, so callbacks interleave with bodies) observe the real engine; the per-node grammar start (complete(err))* final, the bracket, the identity of the PipelineResult object and value-after-complete are checked on the merged trace.',
+      E_NOTE + ' Decided on the implementation only: identity of the PipelineResult object, the exact order of events within one execution, and that a value reaches consumers only after the successful on_node_complete. Raising managers are outside the statement (C02 covers termination with them).',
+      design='4 (C14)')
+claim('C17', 'Coq proof: all-program theorem for the fail-fast clause (no task created, nothing node-level observed when a needed pool is not ready) + certified exploration for the outcome and for three mode assignments of one program + real-pool and registry-state runs of the real engine',
+      'Theorems C17_missing_pool_nothing_runs (EVERY program and schedule: if _is_executor_needed requires a pool that is not ready, no task is ever created and the trace contains only the two pipeline events), C17_missing_pool_outcome (catalogue: the run ends with the registry RuntimeError as an error result, or the caller\'s CancelledError; never a hang) and '
+      'C17_mode_transparent_on_the_rhombus (three assignments of the five execution modes: one value under every schedule) in Properties/C17.v. On every run generated programs are executed under 3 random mode assignments on the virtual loop against the reference and the model; a sample runs on a REAL event loop with a real ThreadPoolExecutor and a fork ProcessPoolExecutor; '
+      '15 registry states x node variants run in fresh subprocesses (never registered / shut down / no manager).',
+      'Mode transparency for ALL programs is not a theorem (the reference ignores modes by construction; that the engine does is established per catalogue program and sampled on the implementation). Not exhibited by the model: real pool timing, pickling of process-pool arguments, worker saturation. ' + E_NOTE,
+      design='4 (C17)')
+claim('C06', 'Coq proof by certified exhaustive exploration per plain catalogue program (at every quiescent undecided state all nodes up to the smallest incomplete depth are started; all schedules; generation-order oracle) + level-by-level withholding schedule on the real engine + correspondence',
+      'Theorem C06_catalogue (Properties/C06.v): for every plain-DAG program of the clean catalogue (chain, rhombus with (gated) managers / gated write-once store / failing sibling, three siblings, mode mixes, retries) and EVERY schedule, at each quiescent point of an undecided run every node whose depth does not exceed the smallest depth of an incomplete node has been started: '
+      'nobody waits for a sibling. On every run plain DAGs with mixed execution modes are run on the real engine under a schedule that withholds all completions of depth d, runs to quiescence, checks that all depth-d bodies have started, then releases depth d; the recorded topological order must be generation-sorted.',
+      'The property depends on networkx producing generation order (checked on every run, assumed by the default order oracle of the model; false for an arbitrary topological order). Not proved for all plain DAGs. Not exhibited: a real pool with fewer workers than siblings only queues the work item. ' + E_NOTE,
+      design='4 (C06)')
